@@ -10,7 +10,8 @@ The engine protocol of Driver/Engine.lean (parsers copied from there), extended 
                                            opened on that store; T = the timestamp it finds, `none` on
                                            an empty store).  The history is the one run up to the FIRST
                                            `crash` line of the case: later `crash` lines cut the same log.
-Arguments: toggle names (f1 f2 f3 f14 f16 desc) as for drv_engine.
+Arguments: as for drv_engine — the model's defaults are the code as it is; `X` switches toggle X on, `noX` off;
+`desc`, `tape=…` choose the walk order of unordered sets.
 -/
 import QbiceVerif.Model.EnginePersist
 open Qbice.Engine Qbice.Persist
@@ -154,6 +155,23 @@ partial def loop (h : IO.FS.Stream) (out : IO.FS.Stream) (t : Toggles) (d : DS) 
   out.putStrLn o
   loop h out t d'
 
+/-- the model's defaults are the code as it is; `X` switches toggle X on, `noX` off -/
+def setToggle (t : Toggles) (a : String) : Toggles :=
+  match a with
+  | "f1" => { t with f1 := true } | "nof1" => { t with f1 := false }
+  | "f2" => { t with f2 := true } | "nof2" => { t with f2 := false }
+  | "f3" => { t with f3 := true } | "nof3" => { t with f3 := false }
+  | "f14" => { t with f14 := true } | "nof14" => { t with f14 := false }
+  | "f16" => { t with f16 := true } | "nof16" => { t with f16 := false }
+  | "f33" => { t with f33 := true } | "nof33" => { t with f33 := false }
+  | "f31" => { t with f31 := true } | "nof31" => { t with f31 := false }
+  | "f32" => { t with f32 := true } | "nof32" => { t with f32 := false }
+  | "f1p" => { t with f1p := true } | "nof1p" => { t with f1p := false }
+  | "f1q" => { t with f1q := true } | "nof1q" => { t with f1q := false }
+  | "f1r" => { t with f1r := true } | "nof1r" => { t with f1r := false }
+  | "desc" => { t with desc := true }
+  | _ =>
+    if a.startsWith "tape=" then { t with tape := ((a.drop 5).toString.splitOn ",").filterMap String.toNat? } else t
+
 def main (args : List String) : IO Unit := do
-  let t : Toggles := { f1 := args.contains "f1", f2 := args.contains "f2", f3 := args.contains "f3", f14 := args.contains "f14", f16 := args.contains "f16", desc := args.contains "desc" }
-  loop (← IO.getStdin) (← IO.getStdout) t {}
+  loop (← IO.getStdin) (← IO.getStdout) (args.foldl setToggle {}) {}
